@@ -72,7 +72,148 @@ type Probe struct {
 	ProbeColor shape.Color `dials:"probe-color"`
 }
 
+// Peer is an element of PeerList.
+type Peer struct {
+	Host string
+	Port int
+}
+
+// PeerList is a named slice of structs that unmarshals itself from text
+// ("a:80,b:81") at the outer level only: Peer has no methods.
+type PeerList []Peer
+
+// UnmarshalText implements encoding.TextUnmarshaler.
+func (p *PeerList) UnmarshalText(b []byte) error {
+	out := PeerList{}
+	if len(b) > 0 {
+		for _, e := range strings.Split(string(b), ",") {
+			i := strings.LastIndexByte(e, ':')
+			if i < 0 {
+				return fmt.Errorf("peer %q: missing ':'", e)
+			}
+			port, err := strconv.Atoi(e[i+1:])
+			if err != nil {
+				return fmt.Errorf("peer %q: %v", e, err)
+			}
+			out = append(out, Peer{Host: e[:i], Port: port})
+		}
+	}
+	*p = out
+	return nil
+}
+
+// WordList is a named slice of strings that unmarshals itself from "a,b,c".
+type WordList []string
+
+// UnmarshalText implements encoding.TextUnmarshaler.
+func (w *WordList) UnmarshalText(b []byte) error {
+	out := WordList{}
+	if len(b) > 0 {
+		out = strings.Split(string(b), ",")
+	}
+	*w = out
+	return nil
+}
+
+// KVMap is a named map that unmarshals itself from "k=v;k2=v2".
+type KVMap map[string]string
+
+// UnmarshalText implements encoding.TextUnmarshaler.
+func (m *KVMap) UnmarshalText(b []byte) error {
+	out := KVMap{}
+	if len(b) > 0 {
+		for _, e := range strings.Split(string(b), ";") {
+			kv := strings.SplitN(e, "=", 2)
+			if len(kv) != 2 {
+				return fmt.Errorf("pair %q: missing '='", e)
+			}
+			out[kv[0]] = kv[1]
+		}
+	}
+	*m = out
+	return nil
+}
+
+var (
+	peerListT = reflect.TypeOf(PeerList(nil))
+	wordListT = reflect.TypeOf(WordList(nil))
+	kvMapT    = reflect.TypeOf(KVMap(nil))
+)
+
+// isTextColl reports whether t is one of the text-unmarshalable collection
+// types or a pointer to one.
+func isTextColl(t reflect.Type) bool {
+	if t.Kind() == reflect.Pointer {
+		t = t.Elem()
+	}
+	return t == peerListT || t == wordListT || t == kvMapT
+}
+
+// textOf is the textual spelling of a text-unmarshalable collection (written
+// here, not by the types: they have no marshaller).
+func textOf(v reflect.Value) (string, bool) {
+	if !isTextColl(v.Type()) {
+		return "", false
+	}
+	if v.Kind() == reflect.Pointer {
+		v = v.Elem()
+	}
+	var parts []string
+	switch x := v.Interface().(type) {
+	case PeerList:
+		for _, p := range x {
+			parts = append(parts, p.Host+":"+strconv.Itoa(p.Port))
+		}
+		return strings.Join(parts, ","), true
+	case WordList:
+		return strings.Join(x, ","), true
+	case KVMap:
+		for _, k := range shape.SortedKeys(x) {
+			parts = append(parts, k+"="+x[k])
+		}
+		return strings.Join(parts, ";"), true
+	}
+	return "", false
+}
+
+// Embedded structs (by value and by pointer).  The embedded field itself has
+// no tag; the names of the leaves use words that generated names never use, so
+// promoted keys cannot collide with sibling keys.
+type EmbLimits struct {
+	MaxBurst    int           `dials:"max_burst"`
+	CoolDown    time.Duration `dials:"cool-down"`
+	QuotaLabels []string      `dials:"quota_labels"`
+	AuditNote   string        `dials:"audit-note"`
+}
+
+// EmbTrace has two leaves.
+type EmbTrace struct {
+	SampleRatio  float64 `dials:"sample_ratio"`
+	ExporterKind string  `dials:"exporter-kind" json:"exporterKindJSON,omitempty"`
+}
+
+// EmbShard has five leaves, the last one a plain scalar.
+type EmbShard struct {
+	ShardPeers   map[string]struct{} `dials:"shard-peers"`
+	ShardColor   shape.Color         `dials:"shard_color"`
+	ShardSince   time.Time           `dials:"shard-since"`
+	ShardWeights map[string]int      `dials:"shard_weights"`
+	ShardIndex   uint16              `dials:"shard-index"`
+}
+
+var c13EmbedTypes = []string{"EmbLimits", "EmbTrace", "EmbShard"}
+
+// Text-unmarshalable named collections and pointers to them.
+var c13TextColls = []string{"PeerList", "PeerList", "*PeerList", "WordList", "*WordList", "KVMap", "*KVMap"}
+
 func init() {
+	shape.RegisterBase("Peer", reflect.TypeOf(Peer{}))
+	shape.RegisterBase("PeerList", peerListT)
+	shape.RegisterBase("WordList", wordListT)
+	shape.RegisterBase("KVMap", kvMapT)
+	shape.RegisterBase("EmbLimits", reflect.TypeOf(EmbLimits{}))
+	shape.RegisterBase("EmbTrace", reflect.TypeOf(EmbTrace{}))
+	shape.RegisterBase("EmbShard", reflect.TypeOf(EmbShard{}))
 	shape.RegisterBase("Backend", reflect.TypeOf(Backend{}))
 	shape.RegisterBase("Route", reflect.TypeOf(Route{}))
 	shape.RegisterBase("Upstream", reflect.TypeOf(Upstream{}))
@@ -92,14 +233,15 @@ var c13StructLists = []string{"[]Backend", "[]Backend", "[]Route", "[]Route", "[
 var c13TextStructSlices = []string{"[]time.Time", "[]time.Time"}
 
 func c13Profile(withTextStructSlices bool) shape.Profile {
-	leaves := append(append([]string{}, c13Leaves...), c13StructLists...)
+	leaves := append(append(append([]string{}, c13Leaves...), c13StructLists...), c13TextColls...)
 	if withTextStructSlices {
 		leaves = append(leaves, c13TextStructSlices...)
 	}
 	return shape.Profile{
-		LeafTypes: leaves,
-		Nested:    []string{"struct", "pstruct"},
-		MaxDepth:  3, MaxFields: 5, MinFields: 1,
+		LeafTypes:  leaves,
+		Nested:     []string{"struct", "pstruct", "struct", "pstruct", "embed", "pembed"},
+		EmbedTypes: c13EmbedTypes,
+		MaxDepth:   3, MaxFields: 5, MinFields: 1,
 	}
 }
 
@@ -149,6 +291,10 @@ func assignTags(t *rapid.T, fs []shape.Field) {
 	used := map[string]bool{}
 	for i := range fs {
 		f := &fs[i]
+		if f.Kind == "embed" || f.Kind == "pembed" {
+			f.Tag = "" // an embedded struct is spelled by its leaves
+			continue
+		}
 		words := f.Words
 		if len(words) == 0 {
 			words = []string{strings.ToLower(f.Name)}
@@ -200,6 +346,8 @@ func decoderFor(format, wrap string) dials.Decoder {
 		d = &json.Decoder{}
 	case "yaml":
 		d = &yaml.Decoder{}
+	case "yamlflat":
+		d = &yaml.Decoder{FlattenAnonymous: true}
 	case "toml":
 		d = &toml.Decoder{}
 	case "cue":
@@ -365,7 +513,9 @@ func genLayer(t *rapid.T, nodes []shape.Node) shape.Layer {
 				l.Set[n.Path] = rapid.Uint64Range(1, 1<<40).Draw(t, "seed")
 			}
 		case shape.ClassStruct, shape.ClassPStruct:
-			if rapid.IntRange(0, 99).Draw(t, "present") < 12 {
+			// an embedded struct with no leaf present has no spelling in the
+			// formats that promote its leaves
+			if !n.SF.Anonymous && rapid.IntRange(0, 99).Draw(t, "present") < 12 {
 				l.Present[n.Path] = true
 			}
 		}
@@ -456,7 +606,7 @@ func genC13Agree(t *rapid.T) C13Case {
 	pk := rapidPick(t, notes)
 	texts := func(l shape.Layer, decoy map[string]uint64) map[string]string {
 		m := map[string]string{}
-		for _, f := range formats {
+		for _, f := range agreeFormats {
 			m[f] = render(f, buildDoc(T, l, decoy, f, c.Wrap != "none", pk), pk)
 		}
 		return m
@@ -475,6 +625,7 @@ func genC13Agree(t *rapid.T) C13Case {
 
 // leafFacts classifies the leaves of the type against the layer.
 type leafFacts struct {
+	embPresent                      map[string][]string // embedded struct path -> names of its present leaves
 	labels                          map[string]bool
 	absent, presentLeaves, deepLeaf int
 	special, textStructSlicePresent bool
@@ -484,6 +635,9 @@ type leafFacts struct {
 func hasType(t reflect.Type, pred func(reflect.Type) bool) bool {
 	if pred(t) {
 		return true
+	}
+	if isTextColl(t) {
+		return false
 	}
 	switch t.Kind() {
 	case reflect.Slice:
@@ -504,7 +658,7 @@ func hasType(t reflect.Type, pred func(reflect.Type) bool) bool {
 }
 
 func isStructList(t reflect.Type) bool {
-	if t.Kind() != reflect.Slice && t.Kind() != reflect.Array {
+	if isTextColl(t) || (t.Kind() != reflect.Slice && t.Kind() != reflect.Array) {
 		return false
 	}
 	e := t.Elem()
@@ -513,7 +667,7 @@ func isStructList(t reflect.Type) bool {
 
 func facts(T reflect.Type, nodes []shape.Node, d shape.Data) leafFacts {
 	l := d.Layers[0]
-	f := leafFacts{labels: map[string]bool{}}
+	f := leafFacts{labels: map[string]bool{}, embPresent: map[string][]string{}}
 	opts := shape.ValueOpts{Plain: true}
 	for _, n := range nodes {
 		if n.Depth > f.maxDepth {
@@ -556,6 +710,21 @@ func facts(T reflect.Type, nodes []shape.Node, d shape.Data) leafFacts {
 				f.deepLeaf++
 			}
 			t := n.Type
+			if isTextColl(t) {
+				f.labels["leaf:text-collection"] = true
+				f.special = true
+				if t.Kind() == reflect.Pointer {
+					f.labels["leaf:pointer-to-text-collection"] = true
+				}
+			}
+			if n.Parent != "" && strings.HasPrefix(n.Path, n.Parent+".") {
+				for _, pn := range nodes {
+					if pn.Path == n.Parent && pn.SF.Anonymous {
+						f.labels["leaf:in-embedded-struct"] = true
+						f.embPresent[n.Parent] = append(f.embPresent[n.Parent], n.SF.Name)
+					}
+				}
+			}
 			if isStructList(t) {
 				f.labels["leaf:struct-list"] = true
 				if t.Kind() == reflect.Array {
@@ -587,6 +756,8 @@ func facts(T reflect.Type, nodes []shape.Node, d shape.Data) leafFacts {
 			if t.Kind() == reflect.Slice || t.Kind() == reflect.Map {
 				if v := shape.MakeValue(t, seed, opts); v.Len() == 0 {
 					switch {
+					case isTextColl(t):
+						f.labels["empty-text-collection"] = true
 					case isStructList(t):
 						f.labels["empty-struct-list"] = true
 					case isSet(t):
@@ -598,6 +769,40 @@ func facts(T reflect.Type, nodes []shape.Node, d shape.Data) leafFacts {
 					}
 				}
 			}
+		}
+	}
+	for _, pn := range nodes {
+		if !pn.SF.Anonymous || (pn.Class != shape.ClassStruct && pn.Class != shape.ClassPStruct) {
+			continue
+		}
+		f.labels["embedded-struct"] = true
+		st := pn.Type
+		if st.Kind() == reflect.Pointer {
+			st = st.Elem()
+			f.labels["embedded-by-pointer"] = true
+		}
+		got := f.embPresent[pn.Path]
+		has := func(name string) bool {
+			for _, g := range got {
+				if g == name {
+					return true
+				}
+			}
+			return false
+		}
+		last, first := st.Field(st.NumField()-1).Name, st.Field(0).Name
+		switch {
+		case len(got) == 0:
+			f.labels["embedded:no-leaf-present"] = true
+		case len(got) == st.NumField():
+			f.labels["embedded:every-leaf-present"] = true
+		case !has(last):
+			f.labels["embedded:last-leaf-absent-others-present"] = true
+			if len(got) == 1 && has(first) {
+				f.labels["embedded:only-first-leaf-present"] = true
+			}
+		default:
+			f.labels["embedded:last-leaf-present-others-absent"] = true
 		}
 	}
 	if f.presentLeaves == 0 {
@@ -626,11 +831,17 @@ func runC13Agree(c C13Case) vrt.Verdict {
 		return vrt.Discardf("%s", bad)
 	}
 	docs := append([]C13Doc{{Layer: c.Data.Layers[0], Decoy: c.Decoy, Texts: c.Texts}}, c.More...)
+	// the four formats, plus the YAML decoder with FlattenAnonymous when the
+	// case carries texts for it (cases saved before it existed do not)
+	formats := agreeFormats
 	for _, doc := range docs {
-		for _, f := range formats {
+		for _, f := range agreeFormats[:4] {
 			if _, ok := doc.Texts[f]; !ok {
 				return vrt.Discardf("missing text")
 			}
+		}
+		if _, ok := doc.Texts["yamlflat"]; !ok {
+			formats = agreeFormats[:4]
 		}
 	}
 	b := shape.NewBuilder(T, shape.ValueOpts{Plain: true})
@@ -781,7 +992,8 @@ var c13Assumptions = []string{
 	"integers stay within the int64 range (TOML cannot spell larger ones) and 64-bit signed values are never math.MinInt64 (Cue v0.6.0 refuses it: \"value was rounded up\"); floats are finite and written in shortest round-trip form, with a fraction or exponent in TOML (go-toml refuses an integer literal for a float field)",
 	"strings, map keys and set elements are plain ASCII words: quoting rules of the third-party parsers are not the subject",
 	"durations are written as time.Duration.String() text, or integer nanoseconds in JSON and Cue only; times are RFC 3339 UTC with second precision (a native date-time in TOML, an unquoted timestamp or a string in YAML)",
-	"no []byte, arrays of scalars, user pointer leaves, interfaces or embedded structs; null is not used (TOML has none)",
+	"no []byte, arrays of scalars, interfaces, or user pointer leaves other than pointers to the text-unmarshalable collections; null is not used (TOML has none)",
+	"embedded struct fields carry no tag of their own (a tagged one is an ordinary named field for encoding/json) and are never present-but-empty (the promoting formats cannot spell that); their leaves use names no generated sibling can have",
 	"lists of dials-tagged structs ([]S; S has 1-4 tagged leaves, some with a duration, a nested struct or a format-specific tag) always have at least one element: go-toml v1 cannot decode the empty array [] into a slice of structs; inside an element a zero-valued field may be left out of the document (elements are not pointerified, absent = zero); arrays of structs, slices of pointers to structs and maps of structs are left out (the transformer does not carry tags into them)",
 	"net.IP values are compared after conversion to the 16-byte form",
 	"sets are written as lists under the set-to-slice wrapper (possibly with a repeated element) and as mappings of empty mappings without it",
@@ -791,8 +1003,8 @@ var c13Assumptions = []string{
 func TestC13Agree(t *testing.T) {
 	vrt.Check(t, vrt.Prop[C13Case]{
 		ID: "C13", Name: "agree",
-		Rule: "config types (depth<=3, <=5 fields per struct; nested and pointer structs; scalars, named scalars, durations, times, net.IP, Stamp, Color, slices, string-keyed maps, sets, collections of those, and non-empty lists of dials-tagged structs whose tags differ from the field names) with a dials tag on every field and a differently named json/yaml/toml/cue tag on about a quarter of them, a third of those with options (omitempty, flow); " +
-			"a history of one to three documents for the same type (independent key subsets and values, so later ones omit keys earlier ones had), decoded one after the other by every decoder, with one Decoder value per format for the whole history or a fresh one per document; some absent leaves appear under their dials name in the formats where the field has its own name (decoy key, must stay unset); " +
+		Rule: "config types (depth<=3, <=5 fields per struct; nested and pointer structs; scalars, named scalars, durations, times, net.IP, Stamp, Color, slices, string-keyed maps, sets, collections of those, non-empty lists of dials-tagged structs whose tags differ from the field names, named collections that unmarshal themselves from text (a slice of structs, a slice of strings, a map, and pointers to them; always spelled as text) and untagged embedded structs by value and by pointer (2-5 tagged leaves, at the root and inside nested structs; leaves promoted into the parent in JSON, Cue and YAML with FlattenAnonymous, nested under the lower-cased type name in plain YAML and under the type name in TOML)) with a dials tag on every other field and a differently named json/yaml/toml/cue tag on about a quarter of them, a third of those with options (omitempty, flow); " +
+			"a history of one to three documents for the same type (independent key subsets and values, so later ones omit keys earlier ones had), decoded one after the other by every decoder (JSON, YAML, TOML, Cue and YAML with FlattenAnonymous), with one Decoder value per format for the whole history or a fresh one per document; some absent leaves appear under their dials name in the formats where the field has its own name (decoy key, must stay unset); " +
 			"non-zero defaults; any subset of leaf keys present, struct keys sometimes present with nothing below; the data is rendered by hand-written emitters to JSON, YAML, TOML and Cue (random layout: block/flow, tables/inline/dotted, quoting, key order, durations as text or integer nanoseconds) and the texts are stored in the case; " +
 			"oracle, per document on its own: each decoder's value equals the pointerified value built from that document's data (absent key = nil, whatever earlier documents held), the four values stacked over the defaults agree pairwise and equal the reference stacking model; at the end no value handed out earlier has changed; " +
 			"non-trivial = in some document a leaf at nesting depth >= 2 is present, at least one leaf key is absent and a duration, set or text-unmarshalable leaf is present; distinct = distinct case JSON",
@@ -818,7 +1030,17 @@ type C13CorruptCase struct {
 	Bad   map[string]string `json:"bad"`
 }
 
-var corruptKinds = []string{"bare-word", "string-for-number", "unterminated-string", "unterminated-bracket", "list-for-struct", "list-for-map", "scalar-for-list", "scalar-for-struct"}
+var corruptKinds = []string{"bare-word", "string-for-number", "unterminated-string", "unterminated-bracket", "list-for-struct", "list-for-map", "scalar-for-list", "scalar-for-struct", structureForText, structureForText}
+
+// structureForText spells a text-unmarshalable collection (PeerList, WordList,
+// KVMap or a pointer to one) by its structure (a list of objects, a list of
+// strings, a mapping) instead of its text.  encoding/json and Cue must refuse
+// that for a type that unmarshals itself from text; yaml.v2 and go-toml fill
+// the underlying slice or map whatever methods the type has, so the YAML and
+// TOML documents are left alone (no corrupted text for them).
+const structureForText = "structure-for-text"
+
+var structureForTextFormats = map[string]bool{"json": true, "cue": true}
 
 // trailingKind appends one stray token after the complete valid document.
 const trailingKind = "trailing-garbage"
@@ -861,6 +1083,8 @@ func eligible(kind string, n *dnode) bool {
 		}
 	}
 	switch kind {
+	case structureForText:
+		return n.kind == 's' && n.typ != nil && isTextColl(n.typ)
 	case "bare-word":
 		return isNum || isBool || (n.kind == 's' && n.typ == timeT)
 	case "string-for-number":
@@ -1039,7 +1263,14 @@ func corruptTexts(c *C13CorruptCase, trees map[string]*dnode, base pick) error {
 		if !eligible(c.Kind, n) {
 			return fmt.Errorf("harness: corruption %s does not apply to %s", c.Kind, c.Path)
 		}
+		if c.Kind == structureForText && !structureForTextFormats[f] {
+			continue
+		}
 		tok := corruptToken(c.Kind, f, n)
+		if c.Kind == structureForText {
+			v := shape.MakeValue(n.typ, c.Data.Layers[0].Set[c.Path], shape.ValueOpts{Plain: true})
+			tok = inlineOf(f, structureNode(v, f, c.Wrap != "none", zeroPick), zeroPick)
+		}
 		n.kind, n.raw, n.kids = 'r', tok, nil
 		rp.replay = true
 		c.Bad[f] = render(f, trees[f], rp.pick)
@@ -1070,6 +1301,13 @@ func runC13Corrupt(c C13CorruptCase) vrt.Verdict {
 	for _, f := range formats {
 		valid, ok1 := c.Valid[f]
 		badText, ok2 := c.Bad[f]
+		if ok1 && !ok2 && c.Kind == structureForText && !structureForTextFormats[f] {
+			// the structural spelling is legal for this format's library
+			if _, err := decodeText(f, c.Wrap, valid, pt); err != nil {
+				return vrt.KeyedViolationf("valid-rejected", "%s decoder (wrap=%s) rejects the valid document: %v\n%s", f, c.Wrap, err, valid)
+			}
+			continue
+		}
 		if !ok1 || !ok2 {
 			return vrt.Discardf("missing text")
 		}
@@ -1105,12 +1343,13 @@ func runC13Corrupt(c C13CorruptCase) vrt.Verdict {
 func TestC13Corrupt(t *testing.T) {
 	vrt.Check(t, vrt.Prop[C13CorruptCase]{
 		ID: "C13", Name: "corrupt",
-		Rule: "a valid document per format as in C13/agree (at least one key present), then one value token chosen by type is replaced in all four documents: a bare word where a number, bool or time is expected, a quoted string where a number or bool is expected, a string without its closing quote, a list/mapping without its closing bracket, a list where a struct or a map is expected, a number where a list or a struct is expected; " +
+		Rule: "a valid document per format as in C13/agree (at least one key present), then one value token chosen by type is replaced in all four documents: a bare word where a number, bool or time is expected, a quoted string where a number or bool is expected, a string without its closing quote, a list/mapping without its closing bracket, a list where a struct or a map is expected, a number where a list or a struct is expected, the structural spelling (list of objects, list of strings, mapping) of a named collection that unmarshals itself from text (JSON and Cue documents only); " +
 			"in about 12% of the cases nothing is replaced and instead (trailing-garbage) one stray token from a per-format list (closing/opening bracket, quoted or bare word, conflict marker, the start of a second object, comma, colon, equals sign, number) follows the complete valid document after optional whitespace; " +
 			"oracle: the valid document decodes without error; the corrupted one returns an error and an invalid or all-nil value from every decoder; " +
 			"non-trivial = at least three leaves are present in the document and the corrupted value is inside a nested struct (trailing-garbage: at least three leaves present); distinct = distinct case JSON",
 		Assumptions: append(append([]string{}, c13Assumptions...),
 			"only corruptions that the grammar or the target type of every format must refuse are used; a float where an integer is expected is not among them (yaml.v2 truncates it by design)",
+			"structure-for-text corrupts the JSON and Cue documents only: yaml.v2 and go-toml decode a sequence or table into the underlying slice or map of a named collection even when the type unmarshals itself from text (confirmed on the unmodified tree), so that spelling is legal there",
 			"the replacement word zzqx is not a key of any generated document (Cue would read it as a reference to that field)",
 			"trailing-garbage uses only (format, token, separator) combinations that the unchanged decoders were confirmed to reject (2983 documents per combination); dropped: Cue ',' (a trailing comma after the top-level fields is legal Cue); YAML 'zzqx:' and '? zzqx' (one more key with a null value, unknown keys are ignored) and '- zzqx' (one more element when the document ends in a root-level block sequence); YAML separators that indent the token (a continuation line of a root-level plain scalar)",
 			"for trailing-garbage the YAML document is written in block style: yaml.v2 Unmarshal reads the first document only, a flow mapping at the root ends that document and whatever follows ('{a: 1}\\n}') is never parsed, so every token is accepted there; that is the third-party parser's reading of a stream, not something the dials decoder decides",
